@@ -158,6 +158,20 @@ WinDrawFails(img, areas, mode, at, size, win, calls) ==
              ELSE IF mode = 1 /\ \E o \in CenterOffsets(at, sz) : SemCodesWin(calls, o, sz, want, win) = {} THEN {}
              ELSE c0)
 
+\* The same drawable (Image::new at `at`) on a target that discards the first k colours of the stream with one nth()
+\* call and pulls the rest: exactly the colours from position k + 1 on arrive (none if k reaches the end)
+SkipDrawFails(img, areas, at, size, k, calls) ==
+  LET abs == AbsChain(img, areas)
+      off == abs[1]
+      sz  == abs[2]
+      n == sz[1] * sz[2]
+      exp == [i \in 1..n |-> Pixel(img, <<off[1] + ((i - 1) % sz[1]), off[2] + ((i - 1) \div sz[1])>>)]
+      rest == IF k >= n THEN <<>> ELSE SubSeq(exp, k + 1, n)
+  IN IF n = 0 THEN (IF \A i \in 1..Len(calls) : calls[i].n = 0 THEN {} ELSE {"skipped_stream"})
+     ELSE IF /\ Len(calls) = 1 /\ calls[1].m = "fc" /\ calls[1].area = <<at[1], at[2], sz[1], sz[2]>>
+             /\ calls[1].n = Len(rest) /\ calls[1].cs = rest
+          THEN {} ELSE {"skipped_stream"}
+
 \* ImageRaw::new on a huge size given as 16-bit halves <<whi, wlo, hhi, hlo>> with a buffer of len <= 64 bytes:
 \* a size with w, h >= 1 and a side above 4096 requires more than 512 bytes
 HugeNewWF(it) == it[5] \in 0..64 /\ it[6] \in {0, 1} /\ \A k \in 1..4 : it[k] \in 0..65535
